@@ -65,6 +65,29 @@ func vkey(v ssa.Value, depth int) string {
 	case *ssa.Global:
 		return "G:" + x.Name()
 	case *ssa.FreeVar:
+		// a captured variable is the enclosing function's variable: use that one's key, so that an expression has the same
+		// key inside and outside the closure
+		if fn := x.Parent(); fn != nil && fn.Parent() != nil {
+			idx := -1
+			for i, fv := range fn.FreeVars {
+				if fv == x {
+					idx = i
+				}
+			}
+			var mk *ssa.MakeClosure
+			allInstrs(fn.Parent(), func(i ssa.Instruction) {
+				if m, ok := i.(*ssa.MakeClosure); ok && m.Fn == ssa.Value(fn) {
+					mk = m
+				}
+			})
+			if mk != nil && idx >= 0 && idx < len(mk.Bindings) {
+				if a, ok := mk.Bindings[idx].(*ssa.Alloc); ok {
+					// binding is the address of the captured variable; a load of the free variable is a load of it
+					return "&" + vkey(a, depth+1)
+				}
+				return vkey(mk.Bindings[idx], depth+1)
+			}
+		}
 		return "F:" + x.Name()
 	case *ssa.Alloc:
 		if sv := singleStore(x); sv != nil {
@@ -88,7 +111,11 @@ func vkey(v ssa.Value, depth int) string {
 			case *ssa.Global:
 				return "G:" + a.Name()
 			}
-			return "*" + vkey(x.X, depth+1)
+			if k := vkey(x.X, depth+1); strings.HasPrefix(k, "&") {
+				return k[1:]
+			} else {
+				return "*" + k
+			}
 		}
 		return x.Op.String() + vkey(x.X, depth+1)
 	case *ssa.Field:
